@@ -17,7 +17,7 @@ from typing import Any
 import z3
 
 from engine import symx
-from . import common, monitors, trav, trav_plans, travcheck
+from . import chrun, common, monitors, trav, trav_plans, travcheck
 
 ALL = ["fail", "error", "pass", "warn", "skip", "cancel", "interrupted", "unknown"]
 RERUN_FULL = [None, "", "fail error", "fail", "pass warn", "fail error warn pass skip cancel interrupted unknown", "fail bogus"]
@@ -420,3 +420,5 @@ def run(ctx: common.Context) -> None:
     ctx.assumptions = ["decision table: results/params of a real parsed node are overwritten in place (restored afterwards)", "traversal parts: see C01-C05 assumptions (seams, store model, choice-mode scheduling)"]
     ctx.coverage["counters"] = totals
     ctx.coverage["explanation"] = "symbolic max_tries through the real should_rerun with the property's sentence as a z3 formula (validity query per path); exhaustive solver-driven enumeration of result lists for the verdict; traversal monitors for identifiers, own results and replay"
+    if ctx.thorough:
+        chrun.run_crosshair(ctx, "ch_c10.py", per_condition_timeout=90)
